@@ -99,7 +99,7 @@ func clBarrierBracket(c *Ctx) {
 				continue
 			}
 			fi := p.Info(fn)
-			for _, in := range fi.Instrs {
+			for _, in := range p.Own(fn) {
 				if callOf(in) == nil {
 					continue
 				}
@@ -166,7 +166,7 @@ func clBarrierBracket(c *Ctx) {
 		if pk != modPath && pk != modPath+"/skiplist" {
 			continue
 		}
-		ok := fn == ni || p.bracketed(p.Info(fn), s)
+		ok := p.sameRoot(fn, ni) || p.bracketed(p.Info(fn), s)
 		c.Check(ok, fn, s, "session-less iterator created only by NewIterator or inside a bracket", "an iterator without barrier session walks nodes that may be freed under it")
 	}
 	okAcq := false
@@ -336,7 +336,7 @@ func clFreeContexts(c *Ctx) {
 			continue
 		}
 		fi := p.Info(fn)
-		for _, in := range fi.Instrs {
+		for _, in := range p.Own(fn) {
 			cc := callOf(in)
 			if cc == nil {
 				continue
@@ -356,8 +356,8 @@ func clFreeContexts(c *Ctx) {
 			sites++
 			construct := cnt.in(fn, what+" in an allowed context")
 			// wrappers: FreeNode itself forwards to s.freeNode
-			if fn == freeNode && what == "s.freeNode" {
-				c.Check(strip(obj) == ssa.Value(fn.Params[1]), fn, in, construct+" [wrapper]", "")
+			if p.sameRoot(fn, freeNode) && what == "s.freeNode" {
+				c.Check(strip(obj) == strip(fn.Params[1]), fn, in, construct+" [wrapper]", "")
 				continue
 			}
 			if ctx := classify(fn, in, obj); ctx != "" {
@@ -386,7 +386,7 @@ func clFreeContexts(c *Ctx) {
 				continue
 			}
 			// Insert4: dealloc of the caller's node when an equal item exists
-			if fname(fn) == "skiplist.(*Skiplist).Insert4" && strip(obj) == ssa.Value(fn.Params[1]) {
+			if fname(p.Root(fn)) == "skiplist.(*Skiplist).Insert4" && strip(obj) == strip(fn.Params[1]) {
 				okG := fi.Guarded(in, func(v ssa.Value, val bool) bool {
 					cmp, ok := cmpOf(v, val)
 					return ok && cmp.Op == token.NEQ && (isNilConst(cmp.X) || isNilConst(cmp.Y))
@@ -412,7 +412,7 @@ func clFreeContexts(c *Ctx) {
 				continue
 			}
 			// replaced store's sentinels in LoadFromDisk
-			if fname(fn) == "nitro.(*Nitro).LoadFromDisk" {
+			if fname(p.Root(fn)) == "nitro.(*Nitro).LoadFromDisk" {
 				recv := strip(cc.Args[0])
 				f, _ := loadedField(recv)
 				replaced := false
@@ -588,18 +588,18 @@ func clFreeFeed(c *Ctx) {
 		c.Check(s.Parent().Parent() == destr, s.Parent(), s, "send on freechan only by the barrier session destructor", "nodes are queued for freeing without passing the access barrier: they can be freed while accessors still hold them")
 	}
 	for _, cl := range p.closesOf(fFreechan) {
-		c.Check(cl.Parent() == closeFn, cl.Parent(), cl, "close(freechan) only by Close", "")
+		c.Check(p.sameRoot(cl.Parent(), closeFn), cl.Parent(), cl, "close(freechan) only by Close", "")
 	}
 	n := 0
 	for _, fn := range p.Funcs {
-		for _, in := range p.Info(fn).Instrs {
+		for _, in := range p.Own(fn) {
 			cc := callOf(in)
 			if cc == nil || cc.StaticCallee() != nil || cc.IsInvoke() {
 				continue
 			}
 			if lastField(cc.Value) == fCallb {
 				n++
-				c.Check(fn == doCleanup, fn, in, "destructor callback invoked only by doCleanup", "the destructor runs outside the ordered cleanup: sessions are destructed out of order or twice")
+				c.Check(p.sameRoot(fn, doCleanup), fn, in, "destructor callback invoked only by doCleanup", "the destructor runs outside the ordered cleanup: sessions are destructed out of order or twice")
 			}
 		}
 	}
@@ -613,7 +613,7 @@ func clFreeFeed(c *Ctx) {
 		for _, in := range afi.Instrs {
 			if s, ok := in.(*ssa.Send); ok {
 				send = in
-				c.Check(strip(s.X) == ssa.Value(a.Params[0]) && afi.guardedByCmp(in, token.NEQ, isValue(a.Params[0]), isNilConst), a, in, "destructor forwards its (non-nil) object reference", "")
+				c.Check(strip(s.X) == strip(a.Params[0]) && afi.guardedByCmp(in, token.NEQ, isValue(a.Params[0]), isNilConst), a, in, "destructor forwards its (non-nil) object reference", "")
 			}
 		}
 		if send == nil {
@@ -635,7 +635,7 @@ func clInsertStopsWhenMarked(c *Ctx) {
 	fi := p.Info(fn)
 	dcas := p.Func("skiplist", "Node", "dcasNext")
 	getNext := p.Func("skiplist", "Node", "getNext")
-	x := ssa.Value(fn.Params[1])
+	x := strip(fn.Params[1])
 	n := 0
 	for _, d := range p.CallSites(fn, dcas) {
 		args := callOf(d).Args
